@@ -1,5 +1,4 @@
 import JinnsDriver.SolveProto
-import JinnsModel.HoldsC19
 open Lean Jinns.Proto Jinns.Driver.SolveProto Jinns.SolveFamily Jinns.SolveTrace
 
 namespace Jinns.Driver
@@ -7,24 +6,17 @@ namespace Jinns.Driver
 /-- request {prog (with a validation module), obs (all parameters tracked, calls recorded)}:
     model run and `Holds.C19` (scripted module: the outcomes are the script; built-in
     `ValidationLoss`: outcomes derived from the observed criteria by the property's wording, the
-    expected criterion of each call being its loss on the replayed batch of its own generators). -/
+    expected criterion of each call being its loss on the replayed batch of its own generators).
+    Programs with a NaN fault are included: the reference trace gives the iteration at which the
+    NaN rule ends training. -/
 def handleC19 (j : Json) : Except String Json := do
   let ld ← load j
-  let rej := ld.ob.error.isSome
-  let pg := ld.pg
-  let calls := ld.ob.calls.map (·.params)
-  let holds ← match pg.val with
-    | none => throw "c19 needs a validation module"
-    | some ⟨c, .scripted script⟩ =>
-      let outcomes := (List.range (pg.n + 1)).map (fun jx =>
-        script.getD (min jx (script.length - 1)) (some 0, false, false))
-      pure (Jinns.Holds.holdsC19 c pg.n pg.θ0 outcomes calls rej ld.ob.obs)
-    | some ⟨c, .vloss L bs pat early⟩ =>
-      let expected := (List.range calls.length).map (fun jx =>
-        lossTotal L (calls.getD jx []) (bs.getD jx ⟨[]⟩))
-      let vobs := ld.ob.calls.map (fun cl => cl.batch.getD ⟨[]⟩)
-      pure (Jinns.Holds.holdsC19VL c pg.n pg.θ0 pat early expected vobs bs calls rej ld.ob.obs)
-  pure (answer ld ["iters", "params", "loss_hist", "term_hist", "tracked", "crit_hist", "best", "calls"] holds)
+  if ld.pg.val.isNone then throw "c19 needs a validation module"
+  let ref := ld.ref ()
+  let holds := holdsValidation ld ref
+  let r := answer ld ["iters", "params", "loss_hist", "term_hist", "tracked", "crit_hist", "best", "calls"] holds
+  pure (r.mergeObj (Json.mkObj [
+    ("fault_at", match Jinns.Holds.SolveAux.firstFault ref with | none => Json.null | some k => Json.num (k : Nat))]))
 
 def opsC19 : List (String × (Json → Except String Json)) := [("c19", handleC19)]
 
